@@ -28,6 +28,32 @@ CHECKS = {
             "FORSYS_VERIF hook record after cross-check with an independent reconstruction. lmfit judged by a 1e-4 "
             "relative objective gap. fix_stress is known finding D5.",
             "DESIGN.md 4/C05"),
+    "C08": ("exhaustive enumeration of all cell subsets of small tissues + property-based testing (Hypothesis) against "
+            "an independent graph-walk decomposition",
+            "Exploration with an exhaustive core: all 2^n cell subsets (n<=10) of several base tissues and lattices, "
+            "plus random subsets of tissues up to 60 cells and resampled meshes; Frame's interface list and the three "
+            "copies of the internal/external predicate are compared with a reference decomposition that walks the "
+            "raw mesh multigraph and a cell-count predicate; table ids and lookup-by-cells checked.",
+            "Trusted: the reference walk (refdecomp.py, ~80 lines). Two-point notch edges are ambiguous by the "
+            "statement (not asserted to separate two cells). Exhaustive only for the enumerated base tissues.",
+            "DESIGN.md 4/C08"),
+    "C11": ("property-based testing (Hypothesis): snapshot / resample / compare laws, idempotence, shipped fixtures",
+            "Generated-input exploration: meshes with 0..40 points per interface, sub-tissues with pinches and holes, "
+            "ne 1..12, replace_short_edges on/off, any pose; after generate_mesh every junction of >=3 cells keeps id "
+            "and exact position, cells with a junction survive, adjacencies are kept, each interface becomes an "
+            "ordered subsequence with both ends and <= ne+1 points (modulo midpoint contraction), cell cycles are "
+            "cyclic subsequences, a second resampling changes nothing, mesh stays consistent.",
+            "Trusted: reference decomposition. Chained contractions (D21) and parallel-interface collapse (D22) are "
+            "known findings, excluded by construction / not asserted; loop interfaces with ne<=2 are unsatisfiable.",
+            "DESIGN.md 4/C11"),
+    "C14": ("property-based testing (Hypothesis): round-trip through an independent Surface Evolver serialiser",
+            "Generated-input exploration: dumps written by an independent serialiser from generated tissues (id gaps, "
+            "signed edge references, wrapped faces, four edge record styles, orphans, CRLF/LF, coordinates 1e-3..1e6) "
+            "are parsed and compared field by field with the generating model; Frame(gt=True) reference tensions = "
+            "mean density per interface; mesh consistency.",
+            "Trusted: the serialiser (se_writer.py) reproduces the layout of the shipped dumps (one blank line before "
+            "each section marker, bodies in face order). Rounding ties accept either rule.",
+            "DESIGN.md 4/C14"),
     "C02": ("property-based testing (Hypothesis) against closed-form tangents of exact arc/line tissues",
             "Generated-input exploration: every entry of the assembled force-balance matrix is compared with the "
             "analytic outward unit tangent on Voronoi/Moebius/lattice tissues, sub-tissues, near-axis rotations, both "
